@@ -577,8 +577,13 @@ class Aggregate(list):
     def __getattr__(self, attr: str):
         """Proxy access to attributes of SubAggregates"""
         for subaggregate in self.subaggregates:
+            # N.B. look in the instance dict: repeated children aren't stored
+            # under the name of their list attribute, and asking for them by
+            # attribute access would land right back here.
+            subagg = self.__dict__.get(subaggregate)
+            if subagg is None:
+                continue
             try:
-                subagg = getattr(self, subaggregate)
                 return getattr(subagg, attr)
             except (AttributeError, KeyError):
                 continue
